@@ -324,3 +324,49 @@ def run(rep: Report, prog: Program, tier: str) -> None:
     # ---------------- C14-SLOTS (shared with C03)
     from .common import description_slots_rule
     description_slots_rule(rep, prog, PROP, "C14-SLOTS")
+
+    # ---------------- C14-VALID: the per-section structural checks, evaluated for every section kind and defect
+    rep.rule("C14-VALID", "defective descriptions are rejected with ValueError whatever the kind of the defective section", min_instances=20)
+    from types import SimpleNamespace as _NS
+    val_f = prog.func(PC + ".__validate_description")
+    loops = [n for n in val_f.node.body if isinstance(n, ast.For) and unparse(n.iter) == "description.media"]
+    if len(loops) != 1:
+        raise AnalysisError("__validate_description: per-section loop `for media in description.media` not found at the top level")
+
+    def section(kind: str, **defect) -> Any:
+        m = _NS(kind=kind, ice=_NS(usernameFragment="ufrag", password="pwd"), dtls=_NS(role="client"), rtcp_mux=(kind != "application"),
+                rtp=_NS(muxId="0"))
+        for k, v in defect.items():
+            tgt, attr = (m, k) if "." not in k else (getattr(m, k.split(".")[0]), k.split(".")[1])
+            setattr(tgt, attr, v)
+        return m
+    cases = []
+    for kind in ("audio", "video", "application"):
+        for typ in ("offer", "answer"):
+            cases.append((kind, typ, "well-formed", {}, False))
+            cases.append((kind, typ, "ICE username fragment missing", {"ice.usernameFragment": None}, True))
+            cases.append((kind, typ, "ICE password missing", {"ice.password": ""}, True))
+            cases.append((kind, typ, "DTLS role auto (actpass)", {"dtls.role": "auto"}, typ == "answer"))
+            if kind != "application":
+                cases.append((kind, typ, "rtcp-mux missing", {"rtcp_mux": False}, True))
+    for kind, typ, what, defect, want_reject in cases:
+        for position in (0, 1):
+            good = section("audio")
+            bad = section(kind, **defect)
+            media = [bad, good] if position == 0 else [good, bad]
+            ev4 = Evaluator(prog, val_f.module, val_f.cls, {"description": _NS(type=typ, media=media), "self": _NS(), "is_local": False})
+            rejected = None
+            try:
+                ev4.exec_stmt(loops[0])
+                rejected = False
+            except Raised as ex:
+                rejected = ex.name
+            except Unknown as ex:
+                raise AnalysisError(f"C14-VALID cannot evaluate the section loop: {ex}")
+            label = f"{typ}: {kind} section #{position} {what}"
+            if want_reject and rejected == "ValueError" or (not want_reject and rejected is False):
+                rep.ok("C14-VALID", label, sample="ValueError" if want_reject else "accepted")
+            else:
+                rep.fail(mk_finding(prog, PROP, "C14-VALID", val_f, loops[0],
+                                    f"{label}: the description is {'accepted' if rejected is False else 'rejected with ' + str(rejected)}; it must be "
+                                    f"{'rejected with ValueError before any state changes' if want_reject else 'accepted'}", construct=f"validation of {kind} sections: {what}"))
